@@ -178,6 +178,12 @@ impl<'a> Walker<'a> {
                     }
                     "ClassProperty" | "PrivateProperty" => {
                         self.walk(&m["key"], "computed key");
+                        if m.get("isStatic") == Some(&json!(true)) {
+                            // a static field is initialised exactly once, in place, while the class is evaluated: its
+                            // temporaries live in the activation that evaluates the class
+                            self.walk(&m["value"], "static field initialiser");
+                            return;
+                        }
                         self.enter_fn("class field initialiser");
                         self.walk(&m["value"], "field initialiser");
                         self.leave_fn();
